@@ -866,3 +866,5 @@ pub fn vx_mmon_note(Ghost(e): Ghost<MEv>, w: &mut World)
 #[verifier::external_body]
 pub fn vx_duration_zero() -> (r: Duration) ensures dur_nanos(r) == 0 { Duration::ZERO }
 pub assume_specification[ usize::next_power_of_two ](x: usize) -> (r: usize) ensures r >= x;
+pub assume_specification<T, E>[ core::result::Result::<T, E>::unwrap_or ](s: core::result::Result<T, E>, d: T) -> (r: T)
+    ensures r == (match s { Ok(v) => v, Err(_) => d });
